@@ -434,3 +434,139 @@ def native_search(n, mode, mu_given, start_given, key, canary=False, tries=300, 
                                                                     alpha=oc[1]["alpha"][:6], x=[v.tolist() for v in oc[1]["x"][:4]]))
                 return dict(args=show, outcome=short, clause=k)
     return None
+
+
+# ------------------------------------------------------------------ the two other projected-gradient algorithms: every iterate is a projection
+
+ALGOS = {
+    "momentum": ("quara.minimization_algorithm.projected_gradient_descent_with_momentum", "ProjectedGradientDescentWithMomentum"),
+    "fista": ("quara.minimization_algorithm.projected_fast_iterative_shrinkage_thresholding_algorithm", "ProjectedFastIterativeShrinkageThresholdingAlgorithm"),
+}
+
+
+def projected_iterates_contract(algo, n, mode, prop="C10"):
+    """PGD with momentum / PFISTA: x_{k+1} = P(something) at every iteration, so every iterate and the returned point lie in C (P's assumed contract)"""
+    modn, clsn = ALGOS[algo]
+    F, G, P, inC = funs(n)
+
+    def make_inputs(md=None):
+        xs = NdVec([z3.Real(f"xs{i}") for i in range(n)], "real")
+        eps = z3.Real("eps")
+        N, H = z3.Int("max_iteration"), z3.Int("num_history")
+        step = z3.Real("step")            # delta (PFISTA) / r (momentum)
+
+        def value(ctx, v, validate=False):
+            return F(*vec(v))
+
+        def gradient(ctx, v):
+            return NdVec([Gi(*vec(v)) for Gi in G], "real")
+
+        def func_proj(ctx, w):
+            w = vec(w)
+            p = [Pi(*w) for Pi in P]
+            ctx.assume(inC(*p))
+            return NdVec(p, "real")
+        origin = Obj("origin", methods=dict(to_var=lambda ctx: xs))
+        tmpl = Obj("template", methods=dict(generate_origin_obj=lambda ctx: origin))
+        qt = Obj("qt", attrs=dict(num_variables=n), methods=dict(generate_empty_estimation_obj_with_setting_info=lambda ctx: tmpl))
+        selfo = Obj("self", attrs=dict(_qt=qt), methods=dict(func_proj=func_proj))
+        loss = Obj("loss_function", attrs=dict(on_value=True, on_gradient=True), methods=dict(value=value, gradient=gradient))
+        attrs = dict(max_iteration_optimization=N, var_start=xs, eps=eps, mode_stopping_criterion_gradient_descent=mode,
+                     num_history_stopping_criterion_gradient_descent=H)
+        if algo == "fista":
+            attrs["delta"] = step
+        else:
+            attrs["r"] = step
+            attrs["moment_0"] = None
+        opt = Obj("algorithm_option", attrs=attrs)
+        req = [N >= 1, eps > 0, H >= 1, step > 0, inC(*vec(xs))]
+        return dict(args=dict(self=selfo, loss_function=loss, loss_function_option=Obj("loss_option"), algorithm_option=opt, on_iteration_history=False),
+                    requires=req, ghost=dict(xs=xs))
+
+    def is_none(v):
+        if v is None:
+            return z3.BoolVal(True)
+        if isinstance(v, OptVal):
+            return v.is_none
+        return z3.BoolVal(False)
+
+    def inv(ctx, t):
+        env = ctx.env
+        xn = env["x_next"]
+        out = [("x_prev-feasible", inC(*vec(env["x_prev"])))]
+        if xn is None:
+            out.append(("first-iteration-has-no-x_next", t == 0))
+        else:
+            out.append(("x_next-none-iff-first-iteration", is_none(xn) == (t == 0)))
+            out.append(("x_next-feasible", z3.Implies(z3.Not(is_none(xn)), inC(*vec(xn)))))
+            if "moment_next" in env and env["moment_next"] is not None:
+                out.append(("moment_next-set-with-x_next", is_none(env["moment_next"]) == is_none(xn)))
+        return out
+
+    def post(ctx):
+        if ctx.kind == "raise":
+            return [("returns-normally", z3.BoolVal(False))]
+        v = ctx.value.attrs["value"]
+        return [("returns-normally", z3.BoolVal(True)), ("result-is-an-iterate", z3.Not(is_none(v))), ("result-feasible", inC(*vec(v)))]
+
+    def canary(ctx):
+        if ctx.kind == "raise":
+            return []
+        v = ctx.value.attrs["value"]
+        return [("result-feasible", z3.Not(inC(*vec(v))))]
+
+    def native_search(key, canary=False):
+        import random
+        import numpy as np
+        from qverif.core import native as Nn
+        mod = Nn.native_import(modn)
+        rng = random.Random(5)
+        for _ in range(200):
+            inst = native_instance(n, mode, True, True, rng)
+            lo, hi, xs0 = inst["lo"], inst["hi"], inst["xs"]
+            alg = getattr(mod, clsn)(func_proj=lambda v: np.clip(v, lo, hi))
+            kw = dict(var_start=xs0.copy(), eps=inst["eps"], max_iteration_optimization=inst["max_iteration"], mode_stopping_criterion_gradient_descent=mode,
+                      num_history_stopping_criterion_gradient_descent=inst["num_history"])
+            if algo == "fista":
+                kw["delta"] = rng.choice([0.01, 0.1, 0.5])
+            else:
+                kw["r"] = rng.choice([0.5, 2.0, 10.0])
+            opt = getattr(mod, clsn + "Option")(**kw)
+            loss = _QuadLoss(inst["A"], inst["c"])
+            import io, contextlib
+            try:
+                with contextlib.redirect_stdout(io.StringIO()):
+                    r = alg.optimize(loss, None, opt, on_iteration_history=True)
+            except _Budget:
+                continue
+            except Exception as e:  # noqa
+                if not canary and (key in (None, "returns-normally")):
+                    return dict(args={k: (v.tolist() if hasattr(v, "tolist") else v) for k, v in inst.items()}, outcome=("raise", type(e).__name__), clause="returns-normally")
+                continue
+            feas = lambda v: bool(np.all(np.asarray(v) >= lo - 1e-9) and np.all(np.asarray(v) <= hi + 1e-9))
+            ok = feas(r.value) and all(feas(v) for v in r.x)
+            bad = ok if canary else (not ok)
+            if bad and key in (None, "result-feasible", "x_next-feasible", "x_prev-feasible"):
+                return dict(args={k: (v.tolist() if hasattr(v, "tolist") else v) for k, v in inst.items()},
+                            outcome=("return", dict(value=np.asarray(r.value).tolist(), x=[np.asarray(v).tolist() for v in r.x[:4]])), clause=key or "result-feasible")
+        return None
+
+    def _ceil(ctx, v):
+        return ctx.fresh_real("ceil")
+
+    def _log10(ctx, v):
+        return ctx.fresh_real("log10")
+
+    def _zeros(ctx, k):
+        return NdVec([z3.RealVal(0)] * int(k), "real")
+    npo = np_stub(n)
+    npo.methods.update(dict(ceil=_ceil, log10=_log10, zeros=_zeros))
+    shapes = dict(x_next=("opt", ("vec", n, "real")), error_values=("seq", "real"), moment_next=("opt", ("vec", n, "real")), magnitude_next=("opt", "real"))
+    loops = {0: LoopSpec("for k in range(1, max_iteration + 1)", inv, shapes=shapes)}
+    result_cls = Func(clsn + "Result", lambda ctx, value, **kw: Obj("result", attrs=dict(value=value, **kw)))
+    c = Contract(modn + ":" + clsn + ".optimize", make_inputs, post, loops=loops, canary=canary, globals_={"np": npo, clsn + "Result": result_cls},
+                 prop=prop, scope=f"unbounded: all iteration counts, losses, closed convex sets, start points in C (vector length {n}, stopping mode {mode})",
+                 clause_text={"x_next-feasible": "every iterate is the output of the projection (lies in C)", "result-feasible": "the returned point lies in C",
+                              "x_prev-feasible": "the previous iterate lies in C"})
+    c.native_search = native_search
+    return c
